@@ -245,8 +245,7 @@ theorem rejected_changes_nothing_partial {env : Env} {s : State} (h : Reachable 
     `notRoot` (an `@id` on the top-level object is answered by a 301), `notDots` (a trailing
     "..." is the append marker), `notNested` (array directly in an array), `idOk` (the id has
     to fit one URL path segment), `unambiguous` (two objects with the same id: Go's map order
-    decides). Numeric ids are reachable under their `%v` spelling `t` (`idText`), which from
-    1e6 upward is not the JSON spelling. -/
+    decides). -/
 structure Addressable (j : Json) (segs : List Bytes) (t : Bytes) : Prop where
   uniq : uniqueKeys j = true
   short : shortArrays j = true
